@@ -53,6 +53,22 @@ theorem match_genuine (p : Pat) (cfg : Cfg) (evs : List Event)
     (by simpa [runAll] using hx) m hml
   simpa using this
 
+/-- `compile_linear`: `NfaCompiler::compile` (model `compile`, mirrored statement by statement) builds, for
+every pattern, exactly the chain `shape p.steps`: `start →` one event state per step (`Normal`, or `Kleene` +
+self-loop + ε→self + ε→continue followed by its continue state), the last event state / continue state
+being the accept state, `has_epsilon_to_accept` set on a trailing Kleene state only. -/
+theorem compile_linear (p : Pat) : compile p = shape p.steps := compile_eq_shape p
+
+/-- the step-level `advance` of the theorems above *is* `advance_run_shared` (model `advanceN`, a generic
+interpreter over `Start`/`Normal`/`Kleene`/`Accept` states) run on the compiled NFA: a run at step `i` is
+the NFA run in state `sid p.steps i`. -/
+theorem advance_is_nfa_interpreter (p : Pat) (cfg : Cfg) (r : Run) (e : Event) (h : r.pos < p.steps.length) :
+    advanceN (compile p) cfg (toN p r) e = (advance p cfg r e).mapRun (toN p) := advanceN_compile p cfg r e h
+
+/-- likewise `tryStart` is `try_start_run_shared` on the compiled NFA. -/
+theorem tryStart_is_nfa_interpreter (p : Pat) (e : Event) :
+    tryStartN (compile p) e = (tryStart p e).map (toN p) := tryStartN_compile p e
+
 /-- what `Genuine` says, clause by clause. -/
 theorem genuine_spec (p : Pat) (evs : List Event) (m : Match) (h : Genuine p evs m = true) :
     (m.stack.map (·.ev)).Sublist evs
